@@ -1490,3 +1490,127 @@ Proof.
   fold votes. apply unanimous_proof; auto.
   unfold votes. rewrite ballot_len. exact MV.
 Qed.
+
+(* reported counts of EVERY vote of a history are those of the ballot cast in
+   that vote by the colony of that moment *)
+Lemma history_counts_proof : forall lg st ops s sc o r,
+  In (s, sc, o) (trace lg st ops) -> o = Result r ->
+  let voters := voters_of (s_colony s) sc in
+  r_total r = len (s_colony s) /\
+  r_permit r = count_voters (casts Permit) voters /\
+  r_block r = count_voters (casts Block) voters /\
+  r_abstain r = count_voters (casts Abstain) voters /\
+  r_votes r = collect voters.
+Proof.
+  intros lg st ops s sc o r H E voters. destruct (trace_sound _ _ _ _ _ _ H) as [_ E2].
+  rewrite E in E2. symmetry in E2.
+  destruct (run_vote_counts_proof lg (s_cfg s) voters r E2) as [T R]. split; [| exact R].
+  rewrite T. unfold voters, voters_of, len. rewrite voters_from_length. reflexivity.
+Qed.
+
+(* ---------------------------------------------------------------------- *)
+(* callbacks, and run_vote calls that do not return                          *)
+
+(* on_quorum_reached is only ever invoked for a vote that is reached / PERMIT *)
+Lemma fired_reached_proof : forall lg st ops s sc o,
+  In (s, sc, o) (trace lg st ops) ->
+  fired s o = Some true -> is_reached o = true /\ is_permit o = true.
+Proof.
+  intros lg st ops s sc o H F. destruct (trace_sound _ _ _ _ _ _ H) as [_ E].
+  assert (R : is_reached o = true).
+  { destruct o as [r |]; [| discriminate F]. cbn [fired] in F.
+    destruct (callback_for s (Result r)); try discriminate F; injection F as F; exact F. }
+  split; [exact R |]. rewrite E in *. rewrite <- reached_iff_permit_proof. exact R.
+Qed.
+
+Lemma history_no_permit_no_reached_callback : forall st ops s sc o,
+  In (s, sc, o) (trace false st ops) ->
+  valid_thr (s_cfg s) ->
+  (forall x, In x (voters_of (s_colony s) sc) -> casts Permit x = false) ->
+  fired s o <> Some true.
+Proof.
+  intros st ops s sc o H V NP F.
+  destruct (fired_reached_proof _ _ _ _ _ _ H F) as [R _].
+  destruct (history_no_permit_proof _ _ _ _ _ H V NP) as [_ R']. congruence.
+Qed.
+
+(* the ballot a colony casts depends on the members' weights and reliabilities only *)
+Definition wr (p : profile) : Q * Q := (p_weight p, p_rel p).
+
+Lemma voters_from_wr : forall c1 c2 sc i,
+  map wr c1 = map wr c2 -> voters_from i c1 sc = voters_from i c2 sc.
+Proof.
+  induction c1 as [| p r IH]; intros [| p2 r2] sc i E; try discriminate E; [reflexivity |].
+  cbn [map] in E. injection E as E1 E2 E3. cbn [voters_from].
+  unfold wr in *. rewrite E1, E2. f_equal. apply IH. exact E3.
+Qed.
+
+Lemma cast_from_wr : forall c sc i, map wr (cast_from i c sc) = map wr c.
+Proof.
+  induction c as [| p r IH]; intros sc i; [reflexivity |].
+  cbn [cast_from map]. rewrite IH. destruct (sc i); reflexivity.
+Qed.
+
+Lemma cast_until_wr : forall k c sc, map wr (cast_until k c sc) = map wr c.
+Proof.
+  intros. unfold cast_until. rewrite map_app, cast_from_wr, <- map_app, firstn_skipn. reflexivity.
+Qed.
+
+(* Whatever a run_vote call does and however it ends - a result is returned,
+   a callback raises after the result was recorded, the aggregator raises, or
+   the call is abandoned in the middle of vote collection - the vote that
+   FOLLOWS it is decided exactly as if that call had never happened: no ballot
+   outlives its call. *)
+Lemma vote_after_call_proof : forall lg st o sc2,
+  (match o with OVote _ | OInterrupted _ _ => True | _ => False end) ->
+  let st' := fst (step lg st o) in
+  run_vote lg (s_cfg st') (voters_of (s_colony st') sc2) =
+  run_vote lg (s_cfg st) (voters_of (s_colony st) sc2).
+Proof.
+  intros lg st o sc2 K st'. unfold st'. destruct o; try (destruct K); cbn [step fst].
+  - destruct (run_vote lg (s_cfg st) (voters_of (s_colony st) script));
+      cbn [s_cfg s_colony set_colony]; unfold voters_of;
+      rewrite (voters_from_wr _ (s_colony st) sc2 0 (cast_from_wr _ _ _)); reflexivity.
+  - destruct (k <? length (s_colony st))%nat; [| reflexivity].
+    cbn [s_cfg s_colony set_colony]. unfold voters_of.
+    rewrite (voters_from_wr _ (s_colony st) sc2 0 (cast_until_wr _ _ _)). reflexivity.
+Qed.
+
+(* the callbacks never influence any verdict, nor any other part of the state:
+   a history and the same history without callbacks produce the same outcomes *)
+Definition strip (st : qstate) : qstate :=
+  mkState (s_cfg st) (s_tracking st) (s_colony st) (s_last st) CbNone CbNone
+          (s_total st) (s_nreached st) (s_nfailed st).
+Definition not_callback_op (o : op) : bool :=
+  match o with OSetCallbacks _ _ => false | _ => true end.
+
+Lemma step_strip : forall lg st o,
+  not_callback_op o = true -> fst (step lg (strip st) o) = strip (fst (step lg st o)).
+Proof.
+  intros lg st o N. destruct o; try discriminate N; cbn [step fst strip s_cfg s_colony s_tracking s_last];
+    try reflexivity.
+  - destruct (run_vote lg (s_cfg st) (voters_of (s_colony st) script)); reflexivity.
+  - destruct (s_tracking st); reflexivity.
+  - destruct (s_tracking st); [| reflexivity]. destruct (s_last st); reflexivity.
+  - destruct (k <? length (s_colony st))%nat; reflexivity.
+Qed.
+
+Lemma step_callbacks_strip : forall lg st r f,
+  strip (fst (step lg st (OSetCallbacks r f))) = strip st.
+Proof. reflexivity. Qed.
+
+Lemma callbacks_irrelevant_proof : forall lg ops st,
+  run_history lg st ops = run_history lg (strip st) (filter not_callback_op ops) /\
+  strip (final_state lg st ops) = final_state lg (strip st) (filter not_callback_op ops).
+Proof.
+  intros lg ops. unfold run_history.
+  induction ops as [| o r IH]; intro st; [split; reflexivity |].
+  destruct (not_callback_op o) eqn:N.
+  - cbn [filter]. rewrite N. cbn [trace final_state]. rewrite (step_strip lg st o N).
+    destruct (IH (fst (step lg st o))) as [IH1 IH2]. split; [| exact IH2].
+    destruct o; try discriminate N; try exact IH1.
+    cbn [map snd]. rewrite IH1. reflexivity.
+  - cbn [filter]. rewrite N. destruct o; try discriminate N. cbn [trace final_state].
+    destruct (IH (fst (step lg st (OSetCallbacks r0 f)))) as [IH1 IH2].
+    rewrite step_callbacks_strip in IH1, IH2. split; assumption.
+Qed.
